@@ -119,11 +119,36 @@ theorem take_succ_of_split {s a b : Bytes} {c : UInt8} (h : s = a ++ c :: b) :
   · rw [List.drop_append]; simp [List.drop_of_length_le]
   · simp
 
+theorem accepted_is_xmlChar (v : Nat) (h : Gen.numericRejected (min v longMax) = false) : Spec.xmlChar v = true := by
+  have hl : longMax = 9223372036854775807 := by decide
+  rw [hl] at h
+  simp [Gen.numericRejected] at h
+  simp [Spec.xmlChar]
+  omega
+
+theorem hexVal_eq : ∀ c : UInt8, isXdigit c = true → Spec.hexVal c = digitVal c := by
+  apply forall_uint8; decide +kernel
+
+theorem digit_is_xdigit : ∀ c : UInt8, isDigit c = true → isXdigit c = true := by
+  apply forall_uint8; decide +kernel
+
+theorem foldl_value_eq (B : Nat) : ∀ (l : Bytes) (a : Nat), (∀ b ∈ l, isXdigit b = true) →
+    l.foldl (fun acc c => acc * B + Spec.hexVal c) a = l.foldl (fun acc d => acc * B + digitVal d) a := by
+  intro l
+  induction l with
+  | nil => intro a _; rfl
+  | cons c l ih =>
+    intro a h
+    simp only [List.foldl_cons]
+    rw [hexVal_eq c (h c (List.mem_cons_self ..))]
+    exact ih _ (fun b hb => h b (List.mem_cons_of_mem _ hb))
+
 open Spec in
 theorem parseEntity_cases (text : Bytes) :
     (parseEntity text).1 = .invalid ∨
     ((parseEntity text) = (.entity, (text.drop 1).dropLast) ∧ (∀ b ∈ (text.drop 1).dropLast, isAlnum b = true)) ∨
     ((parseEntity text).1 = .numeric ∧ numericForm ((text.drop 1).dropLast) = true ∧
+      xmlChar (numericValue ((text.drop 1).dropLast)) = true ∧
       ∀ b ∈ (text.drop 1).dropLast, entityChar b = true) := by
   unfold parseEntity
   generalize (text.drop 1).dropLast = inner
@@ -152,7 +177,16 @@ theorem parseEntity_cases (text : Bytes) :
           · simp
           · rename_i h1 h2 h3
             right; right
-            refine ⟨rfl, ?_, ?_⟩
+            refine ⟨rfl, ?_, ?_, ?_⟩
+            rotate_left
+            · rw [hc35]
+              have hx : ∀ b ∈ hs, isXdigit b = true := List.all_eq_true.mp (by simpa using h2)
+              have hv : numericValue (35 :: d :: hs) = digitsValue 16 hs := by
+                simp only [numericValue, hd', if_true, digitsValue]
+                exact foldl_value_eq 16 hs 0 hx
+              rw [hv]
+              exact accepted_is_xmlChar _ (by simpa [strtolNat] using h3)
+            rotate_left
             · rw [hc35]
               simp only [numericForm, hd', if_true]
               simp only [Bool.not_eq_true, Bool.not_eq_false'] at h1 h2
@@ -180,7 +214,16 @@ theorem parseEntity_cases (text : Bytes) :
             right; right
             have hall : ∀ b ∈ d :: hs, isDigit b = true := by
               simpa using h2
-            refine ⟨rfl, ?_, ?_⟩
+            refine ⟨rfl, ?_, ?_, ?_⟩
+            rotate_left
+            · rw [hc35]
+              have hx : ∀ b ∈ d :: hs, isXdigit b = true := fun b hb => digit_is_xdigit b (hall b hb)
+              have hv : numericValue (35 :: d :: hs) = digitsValue 10 (d :: hs) := by
+                simp only [numericValue, hd', if_false, digitsValue]
+                exact foldl_value_eq 10 (d :: hs) 0 hx
+              rw [hv]
+              exact accepted_is_xmlChar _ (by simpa [strtolNat] using h3)
+            rotate_left
             · rw [hc35]
               simp only [numericForm, hd', if_false, List.all_eq_true]
               intro b hb
@@ -227,7 +270,7 @@ theorem entity_step (r : Rules) (rest : Bytes) (k : Nat) (hf : findByte 59 rest 
     have := takeWhile_append_stop (b := rest.drop (k + 1)) hall h59
     rw [← hsplit] at this
     rw [lenientMarkup_entity rest (rest.drop (k + 1)) this.2, this.1]
-  rcases hcases with hc | ⟨hc, hall⟩ | ⟨hc, hnum, hall⟩
+  rcases hcases with hc | ⟨hc, hall⟩ | ⟨hc, hnum, hxml, hall⟩
   · exact absurd hc hty
   · refine ⟨rest.take k, hlen (fun b hb => (alnum_facts b (hall b hb)).1), ?_⟩
     rw [hc] at hrel hent
@@ -240,7 +283,7 @@ theorem entity_step (r : Rules) (rest : Bytes) (k : Nat) (hf : findByte 59 rest 
     have : t' = .numeric := tyRel_of_not_open hrel hne (by simp)
     subst this
     simp only [entryOk] at hent
-    simp [allowed, hent, hnum]
+    simp [allowed, hent, hnum, hxml]
 
 /-! ### comments -/
 
